@@ -94,6 +94,15 @@ def validity(F, documented, orthogonal=True, has_pressure=True, has_wall=True):
         dx = np.asarray(F["dx"])
         if not (np.all(dx > 0) or np.all(dx < 0)):
             bad.append(("dx-sign", "dx changes sign or vanishes"))
+    # the radial coordinate: psixy is strictly monotone in x along every y index (cells of one radial segment must not lie inside the psi range of another)
+    if "psixy" in F:
+        px = np.asarray(F["psixy"], dtype=float)
+        if px.ndim == 2 and px.shape[0] > 1 and np.all(np.isfinite(px)):
+            d_ = np.diff(px, axis=0)
+            colbad = ~(np.all(d_ > 0, axis=0) | np.all(d_ < 0, axis=0))
+            if colbad.any():
+                j = int(np.argmax(colbad))
+                bad.append(("psixy-not-monotone-in-x", f"psixy is not strictly monotone in x at {int(colbad.sum())} y indices, e.g. y={j}: {np.round(px[:, j], 5).tolist()}"))
     # a staggered copy that is identically zero although the field is not: never computed
     for v in documented:
         if v in F and v not in SCALARS and v not in XARRAYS and not v.startswith("closed_wall") and not v.endswith("corners") and v != "penalty_mask":
